@@ -72,7 +72,37 @@ def render(defs):
 def load(defs, cfg, compiled=None, text=None):
     m = import_repo()
     cs = m.cstruct(endian=cfg["endian"], pointer=cfg.get("ptr"))
-    cs.load(text if text is not None else render(defs), compiled=cfg.get("compiled", False) if compiled is None else compiled, align=bool(cfg.get("align")))
+    comp = cfg.get("compiled", False) if compiled is None else compiled
+    if text is None and any("align" in d.get("t", {}) for d in defs if d["k"] == "structdef"):
+        # mixed alignment modes: a named structure carries its own align flag and is loaded by its own load() call
+        pending = []
+        for d in defs:
+            if d["k"] == "structdef" and "align" in d["t"]:
+                if pending:
+                    cs.load(render(pending), compiled=comp, align=bool(cfg.get("align")))
+                    pending = []
+                cs.load(render_def(d), compiled=comp, align=bool(d["t"]["align"]))
+            else:
+                pending.append(d)
+        if pending:
+            cs.load(render(pending), compiled=comp, align=bool(cfg.get("align")))
+        return cs
+    api = [d for d in defs if text is None and d["k"] == "structdef" and d["t"]["kind"] == "union" and any(f.get("offset") for f in d["t"]["fields"])]
+    if api:
+        # unions with explicit member offsets can only be built through the API (add_field(..., offset=N))
+        rest = [d for d in defs if d not in api]
+        if rest:
+            cs.load(render(rest), compiled=comp, align=bool(cfg.get("align")))
+        for d in api:
+            helper = {"k": "structdef", "n": d["n"] + "__members", "t": dict(d["t"], kind="struct")}
+            cs.load(render_def(helper), compiled=False, align=False)
+            ftypes = [f.type for f in cs.resolve(helper["n"]).__fields__]
+            U = cs._make_union(d["n"], [], align=bool(cfg.get("align")))
+            for f, ft in zip(d["t"]["fields"], ftypes):
+                U.add_field(f["name"], ft, offset=f.get("offset") or None)
+            cs.add_type(d["n"], U)
+        return cs
+    cs.load(text if text is not None else render(defs), compiled=comp, align=bool(cfg.get("align")))
     return cs
 
 
